@@ -68,7 +68,7 @@ def engine_models(pid, tier):
     return stats
 
 
-IND_PROPS = {"C04", "C05", "C06", "C10"}
+IND_PROPS = {"C04", "C05", "C06", "C09", "C10"}
 
 
 def indicator_models(pid, tier):
@@ -90,9 +90,26 @@ def indicator_models(pid, tier):
     return stats
 
 
+def analysis_models(pid, tier):
+    """MC_Analysis: causality, index consistency, scale/shift invariance and 'missing is never
+    true' of the specification's movement and pattern functions on every small candle list"""
+    q = tier == "quick"
+    cfg = "MC_Analysis_quick.cfg" if q else "MC_Analysis.cfg"
+    consts = ("all lists of length <= %d with readings a,b from {None,1,2,3}; 16 movement functions, lengths 1..3, "
+              "every index; a 10-candle neutral history plus <= %d candles from 7 shapes for the 4 patterns, "
+              "lookbacks {none,1,3,12}" % ((3, 2) if q else (4, 3)))
+    stats = [mc.run_model("MC_Analysis", "MC_Analysis", cfg, consts, timeout=3400)]
+    if pid == "C16":
+        stats.append(mc.run_model("MC_Analysis+analysis_wraps (must fail)", "MC_Analysis", "MC_Analysis_dev.cfg",
+                                  "length 3, Dev={analysis_wraps}", expect_violation="C16_Causal"))
+    return stats
+
+
 def run(pid, tier, seed, rng, t0):
     scs = families.scenarios(pid, tier, rng)
     mc_stats, extra, rc_replay = [], {}, 0
+    if pid in ("C16", "C17"):
+        mc_stats = analysis_models(pid, tier)
     if pid in IND_PROPS:
         mc_stats = indicator_models(pid, tier)
     if pid in ENGINE_PROPS:
